@@ -67,6 +67,7 @@ type Op struct {
 	Depth  int    `json:"depth,omitempty"`
 	API    string `json:"api,omitempty"` // Seek SeekAsync SeekAsyncCut dao.Seek dao.SeekAsync Find FindRP
 	Pop    bool   `json:"pop,omitempty"`
+	Limit  int    `json:"limit,omitempty"` // seek through a callback: stop after that many items (0 = no limit)
 	Impl   []pair `json:"impl,omitempty"` // prediction of the implementation-shaped model (untrimmed keys), if any
 	HasImp bool   `json:"hasimpl,omitempty"`
 }
@@ -112,8 +113,8 @@ func clearDisk(s storage.Store) error {
 	return s.SeekGC(storage.SeekRange{}, func(k, v []byte) (bool, bool) { return false, true })
 }
 
-// openBackend returns an EMPTY backend of the named kind. The disk databases are opened once and emptied
-// between histories (through their own SeekGC with an empty prefix, which the disk backends support).
+// openBackend returns an EMPTY backend of the named kind. The BoltDB database is opened once and emptied
+// between histories (through its own SeekGC with an empty prefix, which the disk backends support).
 func openBackend(name string) (storage.Store, error) {
 	switch name {
 	case "memory":
@@ -129,21 +130,20 @@ func openBackend(name string) (storage.Store, error) {
 		}
 		return boltDB, clearDisk(boltDB)
 	case "leveldb":
-		if levelDB == nil {
-			dbSerial++
-			s, err := storage.NewLevelDBStore(dbconfig.LevelDBOptions{DataDirectoryPath: filepath.Join(scratch(), fmt.Sprintf("l%d", dbSerial))})
-			if err != nil {
-				return nil, err
-			}
-			levelDB = s
+		// a fresh database per history: the pinned goleveldb loses / resurrects keys when one database is
+		// emptied and refilled hundreds of times through transactions (reported separately, see TestLevelDBChurn)
+		if levelDB != nil {
+			_ = levelDB.Close()
+			levelDB = nil
+			_ = os.RemoveAll(filepath.Join(scratch(), fmt.Sprintf("l%d", dbSerial)))
 		}
-		err := clearDisk(levelDB)
-		if os.Getenv("C09_DEBUG") != "" {
-			levelDB.Seek(storage.SeekRange{}, func(k, v []byte) bool { fmt.Fprintf(os.Stderr, "LEFTOVER %x=%x\n", k, v); return true })
-			levelDB.Seek(storage.SeekRange{Prefix: []byte{0x70}}, func(k, v []byte) bool { fmt.Fprintf(os.Stderr, "LEFTOVER-P %x=%x\n", k, v); return true })
-			levelDB.Seek(storage.SeekRange{Prefix: []byte{0x70}, Backwards: true}, func(k, v []byte) bool { fmt.Fprintf(os.Stderr, "LEFTOVER-B %x=%x\n", k, v); return true })
+		dbSerial++
+		s, err := storage.NewLevelDBStore(dbconfig.LevelDBOptions{DataDirectoryPath: filepath.Join(scratch(), fmt.Sprintf("l%d", dbSerial))})
+		if err != nil {
+			return nil, err
 		}
-		return levelDB, err
+		levelDB = s
+		return levelDB, nil
 	}
 	return nil, errors.New("unknown backend " + name)
 }
@@ -201,10 +201,13 @@ func (w *world) emit(ev map[string]any) { w.tr.Emit(ev) }
 
 // ---------------------------------------------------------------- execution of one op
 
-func collect(dst *[]pair) func(k, v []byte) bool {
+func collect(dst *[]pair) func(k, v []byte) bool { return collectN(dst, 0) }
+
+// collectN stops the iteration (returns false) once limit items were delivered.
+func collectN(dst *[]pair, limit int) func(k, v []byte) bool {
 	return func(k, v []byte) bool {
 		*dst = append(*dst, pair{ints(k), ints(v)})
-		return len(*dst) < 10000
+		return limit == 0 || len(*dst) < limit
 	}
 }
 
@@ -241,9 +244,6 @@ func (w *world) find(at int, id int32, userPrefix []byte, opts int64) ([]pair, e
 // be abandoned (panic).
 func (w *world) exec(o Op) (ok bool) {
 	w.done = append(w.done, o)
-	if os.Getenv("C09_DEBUG") != "" {
-		fmt.Fprintf(os.Stderr, "OP %s %s %+v\n", w.src, w.bname, o)
-	}
 	defer func() {
 		if p := recover(); p != nil {
 			w.res.Violate(map[string]any{"kind": "panic", "op": o.Op, "api": o.API, "backend": w.bname},
@@ -381,14 +381,14 @@ func (w *world) exec(o Op) (ok bool) {
 		if o.At == 0 {
 			api = "Seek"
 		}
+		limit := 0
+		if api == "Seek" || api == "dao.Seek" {
+			limit = o.Limit
+		}
 		switch api {
 		case "Seek":
-			w.storeAt(o.At).Seek(rng, collect(&out))
+			w.storeAt(o.At).Seek(rng, collectN(&out, limit))
 		case "SeekAsync", "SeekAsyncCut":
-			if os.Getenv("C09_DEBUG") != "" && w.bname != "memory" {
-				w.backend.Seek(storage.SeekRange{}, func(k, v []byte) bool { fmt.Fprintf(os.Stderr, "  CONTENT %x=%x\n", k, v); return true })
-				w.backend.Seek(rng, func(k, v []byte) bool { fmt.Fprintf(os.Stderr, "  INRANGE %x=%x\n", k, v); return true })
-			}
 			cut := api == "SeekAsyncCut"
 			if cut {
 				cutlen = len(rng.Prefix)
@@ -400,7 +400,7 @@ func (w *world) exec(o Op) (ok bool) {
 			cutlen = len(rng.Prefix)
 			r2 := rng
 			r2.Prefix = userPrefix
-			w.L[o.At].d.Seek(id, r2, collect(&out))
+			w.L[o.At].d.Seek(id, r2, collectN(&out, limit))
 		case "dao.SeekAsync":
 			cutlen = len(rng.Prefix)
 			r2 := rng
@@ -433,7 +433,7 @@ func (w *world) exec(o Op) (ok bool) {
 			st = []int{}
 		}
 		w.emit(map[string]any{"event": "seek", "at": o.At, "prefix": o.Prefix, "start": st, "back": o.Back,
-			"depth": o.Depth, "cutlen": cutlen, "api": api, "res": out})
+			"depth": o.Depth, "cutlen": cutlen, "api": api, "limit": limit, "res": out})
 		w.res.Count([]any{"seek", api, o.Prefix, st, o.Back, o.Depth, out})
 		if o.HasImp {
 			pred := make([]pair, len(o.Impl))
@@ -663,6 +663,9 @@ func (g *gen) readOps(n int) {
 		o := Op{Op: "seek", At: at, Prefix: ints(prefix), Start: ints(start), Back: r.Intn(2) == 0}
 		if r.Intn(3) == 0 {
 			o.Depth = r.Intn(6)
+		}
+		if r.Intn(5) == 0 && !(o.Back && len(o.Start) > 0) {
+			o.Limit = 1 + r.Intn(3)
 		}
 		switch x := r.Intn(12); {
 		case x < 3:
@@ -929,6 +932,21 @@ func TestDriver(t *testing.T) {
 	tr := vh.NewTrace("trace.ndjson")
 	defer closeBackends()
 	reads := vh.EnvInt("VERIF_READS", 6)
+
+	// 0. replay of a recorded violation (tools/vcheck C09 --replay file)
+	var rp struct {
+		Backend string `json:"backend"`
+		Dao     bool   `json:"dao"`
+		Ops     []Op   `json:"ops"`
+	}
+	if vh.InDir() != "" && vh.ReadJSON("replay.json", &rp) == nil && len(rp.Ops) > 0 {
+		runHistory(res, tr, "replay", rp.Backend, rp.Dao, rp.Ops)
+		tr.Close()
+		if err := res.Write(); err != nil {
+			t.Fatal(err)
+		}
+		return
+	}
 
 	// 1. model-level counterexamples of KVSeekImpl (code as it is), decided on the real stores
 	var cases []Case
